@@ -45,7 +45,7 @@ proof {
 }
 @end
 
-@raw
+@raw root
 verus! {
 pub open spec fn sig_v() -> Seq<u8> { seq![97u8, 98, 121, 115, 100, 98, 86, 0] }
 /// documented value-file header (val.rs:156-181): signature1, type signature, 176 zero bytes (reserves + 16 free-list heads)
